@@ -56,11 +56,15 @@ class SigmaLogSource:
         )
 
     def to_dict(self) -> dict[str, Any]:
-        return {
-            field.name: str(value)
-            for field in dataclasses.fields(self)
-            if (value := self.__getattribute__(field.name)) is not None
+        """The log source as it is written in a rule: its attributes and the custom ones beside them."""
+        d: dict[str, Any] = {
+            name: str(value)
+            for name in ("category", "product", "service", "definition")
+            if (value := self.__getattribute__(name)) is not None
         }
+        if self.custom_attributes:
+            d.update(self.custom_attributes)
+        return d
 
     def __contains__(self, other: "SigmaLogSource") -> bool:
         """
